@@ -10,10 +10,16 @@ PUSH, POP = 1, 2
 STEPS = 5  # accesses of a successful trypush / trypop
 
 
+L_REST = 3900     # search mode: byte b of the ring buffer object = 3900 + b (bytes registered otherwise keep their locs)
+
+
 def monitor(case, tr, raw):
     """property oracle on an implementation trace (None = fine)."""
     if tr is None:
         return "implementation produced no trace: %s" % (raw or "")[:80]
+    # search mode (RT_CATCHALL=1): accesses to bytes of the object(s) that have no location of their own are
+    # scheduling points, not events of the protocol judged here
+    tr = [e for e in tr if e[1] < L_REST or e[2] in (909, 919)]
     v = [int(x) for x in case.split()]
     k, start = v[1], v[2]
     size = 1 << k
@@ -153,11 +159,12 @@ def search(ctx, exe):
         cases = gen_cases(rng_ctx, "thorough")[:30000]
     finally:
         rng_ctx.cleanup()
-    impl = core.run_sharded([exe], cases)
+    # RT_CATCHALL: every byte of the ring buffer object is a scheduling point (fields the model does not know included)
+    impl = core.run_sharded(["env", "RT_CATCHALL=1", exe], cases)
     for c, line in zip(cases, impl):
         why = core.safe_monitor(monitor, c, core.parse_trace(line) if line is not None else None, line)
         if why:
-            core.report_violation(ctx, "ring", c, why, line)
+            core.report_violation(ctx, "ring+catchall", c, why, line)
             if len(ctx.violations) >= 3:
                 break
 
@@ -177,6 +184,11 @@ def replay(ctx, payload):
     if not exe or not c:
         print("nothing to replay (no concrete case in this file)")
         return 2
+    if str(payload.get("harness", "")).endswith("+catchall"):
+        impl = core.run_sharded(["env", "RT_CATCHALL=1", exe], [c])[0]
+        why = core.safe_monitor(monitor, c, core.parse_trace(impl) if impl is not None else None, impl)
+        print("case:  %s\nimpl (every byte of the object a scheduling point):  %s\nmonitor: %s" % (c, impl, why or "ok"))
+        return 1 if why else 0
     impl = core.run_sharded([exe], [c])[0]
     mod = core.model_run("ring", [c])[0]
     why = monitor(c, core.parse_trace(impl), impl)
